@@ -169,7 +169,7 @@ def _bn(base):
     return str(base)
 
 
-@contract(r"^(core|std)::slice::<impl \[T\]>::split_at$")
+@contract(r"^(core|std)::slice::<impl \[T\]>::(split_at|split_at_mut)$")
 def c_split_at(eng, st, fr, f, args, site):
     vw = view(eng, st, args[0])
     mid = args[1]
@@ -184,6 +184,37 @@ def c_split_at(eng, st, fr, f, args, site):
     a = Slice(vw["base"], vw["off"], mid.lin, vw["elem"])
     b = Slice(vw["base"], vw["off"].add(mid.lin), vw["len"].sub(mid.lin), vw["elem"])
     return [(st, Struct(None, (a, b)))]
+
+
+@contract(r"^(core|std)::num::<impl (u16|u32|u64|u128|i16|i32|i64|i128|usize)>::(from_be_bytes|from_le_bytes)$")
+def c_from_bytes(eng, st, fr, f, args, site):
+    """uN::from_be_bytes([b0, b1, ..]) / from_le_bytes: the number whose bytes are the array's elements (named byte reads
+    of one sequence compose to the multi-byte read of that sequence)."""
+    a = force(eng, st, args[0])
+    rt = ret_ty(eng, site)
+    ii = eng.T.int_info(rt) if rt is not None else None
+    if not isinstance(a, Arr) or not ii or len(a.elems) * 8 != ii[0]:
+        return None
+    be = f["path"].endswith("from_be_bytes")
+    elems = list(a.elems)
+    if be:
+        elems = list(reversed(elems))  # least significant byte first
+    bits = []
+    for e in elems:
+        e = force(eng, st, e)
+        if not isinstance(e, Int):
+            return None
+        eb = eng.bits_of(st, e)
+        if eb is None:
+            s1 = e.lin.single_sym()
+            if s1 is None and e.lin.is_const():
+                eb = tuple((e.lin.c >> i) & 1 for i in range(8))
+            elif s1 is not None:
+                eb = tuple(("b", s1, i) for i in range(8))
+            else:
+                return None
+        bits.extend(list(eb)[:8])
+    return [(st, eng.int_from_bits(st, tuple(bits), ii[0], ii[1]))]
 
 
 @contract(r"^(core|std)::slice::<impl \[T\]>::(first|last|get)$")
